@@ -8,7 +8,7 @@ step = one operation on shared state, and a schedule is a list of thread names."
 import threading as _threading
 import traceback
 
-WATCHDOG = 30.0
+WATCHDOG = 120.0
 
 
 class SchedulerStuck(Exception):
